@@ -22,6 +22,10 @@ TPut == /\ IsEvent("Put") /\ Ev.detail = ""
 TNext == TPut
 TSpec == TInit /\ [][TNext]_tvars
 
+\* the property, evaluated on every recorded outcome except those only the open deviation explains
+ViaDev == accepted /\ DevApplies(form, abs, path)
+TAcceptedInside       == ViaDev \/ AcceptedInside
+TStoredResolvesInside == ViaDev \/ StoredResolvesInside
 DevReport == l <= Len(Trace) \/ \A d \in dev : PrintT(<<"DEV_USED", d>>)
 TraceConstraint == TLCSet(1, IF l - 1 > TLCGet(1) THEN l - 1 ELSE TLCGet(1))
 TracePost == PrintT(<<"TRACE_HWM", TLCGet(1)>>)
